@@ -28,6 +28,27 @@ func orParts(f string) (string, string, bool) {
 	return f[3:i], f[i+1:], true
 }
 
+// FactAbout: every path a fact (plain "kind:path" or a disjunction of two) speaks of starts with prefix.
+func FactAbout(f, prefix string) bool {
+	if a, b, ok := orParts(f); ok {
+		return FactAbout(a, prefix) && FactAbout(b, prefix)
+	}
+	i := strings.Index(f, ":")
+	return i >= 0 && strings.HasPrefix(f[i+1:], prefix)
+}
+
+// RebaseFact rewrites the leading `from` of the path(s) of a fact to `to` (a callee's receiver to the caller's argument).
+func RebaseFact(f, from, to string) string {
+	if a, b, ok := orParts(f); ok {
+		return orFact(RebaseFact(a, from, to), RebaseFact(b, from, to))
+	}
+	i := strings.Index(f, ":")
+	if i < 0 {
+		return f
+	}
+	return f[:i+1] + to + strings.TrimPrefix(f[i+1:], from)
+}
+
 func holdsFact(set map[string]bool, f string) bool {
 	if set[f] {
 		return true
